@@ -305,3 +305,50 @@ pub fn run_eqhash(args: &[&str]) -> String {
         _ => "BADCASE".into(),
     }
 }
+
+/// SHOW L hex | SHOW C hex | SHOW N hex... | SHOW P hex: the text `Display` writes, as hexadecimal
+pub fn run_show(args: &[&str]) -> String {
+    use simple_dns::{CharacterString, Label, Name};
+    fn shown<T: std::fmt::Display>(v: &T) -> String {
+        use std::fmt::Write;
+        let a = v.to_string();
+        let mut b = String::new();
+        if write!(b, "{}", v).is_err() || a != b || format!("{:>0}", v).is_empty() != a.is_empty() {
+            return "DIFF".into();
+        }
+        bytes_to_hex(a.as_bytes())
+    }
+    if args.is_empty() {
+        return "BADCASE".into();
+    }
+    let rest: Option<Vec<Vec<u8>>> = args[1..].iter().map(|t| hex_to_bytes(t)).collect();
+    let rest = match rest {
+        Some(r) => r,
+        None => return "BADCASE".into(),
+    };
+    match (args[0], rest.len()) {
+        ("L", 1) => shown(&Label::new_unchecked(rest[0].as_slice())),
+        ("C", 1) => match CharacterString::new(&rest[0]) {
+            Ok(c) => shown(&c),
+            Err(_) => "ERR".into(),
+        },
+        ("N", _) => {
+            let labels: Vec<Label> = rest.iter().map(|l| Label::new_unchecked(l.as_slice())).collect();
+            shown(&Name::new_with_labels(&labels))
+        }
+        ("P", 1) => match Packet::parse(&rest[0]) {
+            Ok(p) => {
+                let mut out = vec!["OK".to_string()];
+                for q in &p.questions {
+                    out.push(shown(&q.qname));
+                }
+                for rr in p.answers.iter().chain(p.name_servers.iter()).chain(p.additional_records.iter()) {
+                    out.push(shown(&rr.name));
+                }
+                out.join(" ")
+            }
+            Err(_) => "ERR".into(),
+        },
+        _ => "BADCASE".into(),
+    }
+}
